@@ -23,7 +23,8 @@ from vlib.proto import C, T, is_c, is_t, show, subterms
 from vlib.front import unparse, dotted, const_value, AnchorMissing
 
 M = 'phylib/utils/event.py'
-FLOOR = 7
+FLOOR = 5          # decided obligations below this = the analysis lost its footing (exit 2); clean tree: 12
+RULES = ('C19.P1', 'C19.P2', 'C19.P3', 'C19.P7', 'C19.R1')          # every obligation group must report (holds / violated / undecided): a group that vanishes silently is an analysis error
 EXPLANATION = ('proto engine: the methods of EventEmitter are walked over an abstract registry of 0..2 symbolic '
                'entries (all outcomes of every test are explored, facts recorded per path); the observed callback-call '
                'sequence, arguments and return value are compared with the specification evaluated on the same facts, '
